@@ -169,4 +169,14 @@ PROPS = {
         "trusted_base": ["Lean Weierstrass / X25519 reference (RFC 7748 KATs + this run)"],
         "assumptions": ["the group law behind symmetry is assumed, cross-checked"],
     },
+    "C19": {
+        "modules": ["Cose.Props.C19"], "families": [], "spec_ops": [],
+        "n_quick": 0, "n_thorough": 0,
+        "extras": [{"name": "race", "pkg": "./race", "build_flags": ["-race"], "args": ["-seed", "{seed}", "-n", "{n}"],
+                    "n_quick": 60, "n_thorough": 1500, "timeout": 3000}],
+        "rule": "-race build: 16 goroutines x n operations x 32 shared instances (24 algorithm implementations, an ECDHer per curve, the Key.MACer / Encryptor / Signer+Verifier factories on a shared key, "
+                "one Validator); every result compared with the sequential one (deterministic operations byte-equal, ECDSA signatures verified); distinct = total operations / goroutines",
+        "trusted_base": ["extractor footprint classifier (typed AST) and the allow-list of external callees in Props/C19.lean", "Go race detector (search support only)"],
+        "assumptions": ["the Go memory model, the scheduler and the thread-safety of crypto/* objects held in fields (cipher.Block) are assumed, not modelled; a theorem cannot exhibit a race"],
+    },
 }
